@@ -294,6 +294,16 @@ class Node:
         node._root = self._root
         self._branch[node.name] = node
         node._treepath = self._treepath+'/'+node.name
+        node._update_branch()
+
+    def _update_branch(self):
+        """
+        Propagates this node's root and treepath to all downstream nodes.
+        """
+        for child in self._branch._dict.values():
+            child._root = self._root
+            child._treepath = self._treepath+'/'+child.name
+            child._update_branch()
 
     def force_add_to_tree(self,node):
         """
